@@ -92,6 +92,7 @@ struct RunResult {
     uint64_t hash = 0;               // event-log hash (no pointers)
     uint64_t behaviour_sig = 0;      // hash of (dir, state, rc, callbacks fired) sequence
     uint64_t total_allocs = 0, alloc_failed = 0; uintptr_t fail_site = 0;
+    std::vector<uint64_t> realloc_ks;   // which of the allocations were growth reallocs (C18 enumerates these in full)
     int64_t peak_bytes = 0;
     uint64_t ticks = 0;
     std::vector<int64_t> live_after_tx;   // live heap bytes sampled at each TRANSACTION_COMPLETE (C10 steady state)
